@@ -64,8 +64,20 @@ fn settled(c: usize) -> usize { SETTLED.lock().unwrap().as_ref().and_then(|m| m.
 fn settle(c: usize) { let n = values_len(c); let mut g = SETTLED.lock().unwrap(); let m = g.get_or_insert_with(HashMap::new); let e = m.entry(c).or_insert(1); if n > *e { *e = n; } }
 fn values_len(c: usize) -> usize { VALUES.lock().unwrap().as_ref().and_then(|m| m.get(&c).map(|v| v.len())).unwrap_or(0) }
 fn push_value(c: usize, v: Vec<u8>) { VALUES.lock().unwrap().get_or_insert_with(HashMap::new).entry(c).or_default().push(v); }
+thread_local! {
+    /// set around an emission by the `hit` op: the index of the oldest value of the thread's reloadable default that may still
+    /// judge it (the value of the last reload that had RETURNED when the emission started)
+    static EMIT_FROM: std::cell::Cell<Option<usize>> = const { std::cell::Cell::new(None) };
+}
 impl Base {
+    /// may this delivery happen?  An emission racing with reloads is judged entirely by ONE of the values the collector has
+    /// between the emission's start and its end (with a cached `always` that is the value the verdict was computed under):
+    /// the delivery is wrong only if none of them accepts the callsite.
     fn accepts(&self, i: usize) -> bool {
+        if let Some(from) = EMIT_FROM.with(|e| e.get()) {
+            let any_old = VALUES.lock().unwrap().as_ref().and_then(|m| m.get(&self.id).map(|vs| vs[from.min(vs.len())..].iter().any(|v| matches!(v[i], b'a' | b't')))).unwrap_or(false);
+            if any_old { return true; }
+        }
         let h = RHANDLES.lock().unwrap().as_ref().and_then(|m| m.get(&self.id).cloned());
         h.and_then(|h| h.with_current(|l| matches!(l.0[i], b'a' | b't')).ok()).unwrap_or(true)
     }
@@ -182,7 +194,9 @@ fn run_thread(t: usize, prog: Vec<Vec<String>>, dflt: Option<Dispatch>, dflt_id:
                     // collector has between its start and its end — if they ALL accept it, it must be delivered
                     let watch = dflt_id.filter(|c| values_len(*c) > 0);
                     let (from, before) = match watch { Some(c) => (settled(c).saturating_sub(1), LOG.lock().unwrap().iter().filter(|x| **x == c).count()), None => (0, 0) };
+                    if watch.is_some() { EMIT_FROM.with(|e| e.set(Some(from))); }
                     pool::hit(cs);
+                    EMIT_FROM.with(|e| e.set(None));
                     if let Some(c) = watch {
                         let after = LOG.lock().unwrap().iter().filter(|x| **x == c).count();
                         let all_accept = VALUES.lock().unwrap().as_ref().unwrap()[&c][from..].iter().all(|v| matches!(v[cs], b'a' | b't'));
